@@ -4,7 +4,17 @@ import common, gen
 
 
 class Case:
-    __slots__ = ("name", "stmts", "files", "text", "impl", "model", "meta", "gen")
+    """One program.  Either `stmts` (a syntax tree: rendered to text for the binary, serialised for the model)
+    or `src` (source bytes: the same bytes go to the binary and to the model's whole pipeline, lexer included)."""
+    __slots__ = ("name", "stmts", "files", "text", "impl", "model", "meta", "gen", "src")
+
+    def __init__(self):
+        self.src = None
+        self.stmts = None
+        self.files = None
+        self.text = None
+        self.meta = None
+        self.gen = None
 
 
 def run_both(ctx, tag, cases, keep=False, model_verbose=False):
@@ -16,6 +26,10 @@ def run_both(ctx, tag, cases, keep=False, model_verbose=False):
         for fn, content in (c.files or {}).items():
             allfiles[fn] = content
     for c in cases:
+        if c.src is not None:
+            c.text = c.src.decode("utf-8", "replace")
+            programs[c.name] = c.src
+            continue
         if c.text is None:
             c.text = gen.render_program(c.stmts, random.Random(hash(c.name) & 0xffffffff))
         programs[c.name] = c.text
@@ -23,7 +37,14 @@ def run_both(ctx, tag, cases, keep=False, model_verbose=False):
     wd, impl = common.run_programs(tag, programs, files=allfiles, keep=keep)
     for c in cases:
         mfiles = {os.path.join(wd, fn): content for fn, content in (c.files or {}).items()}
-        case_text.append(gen.ser_case(c.name, c.stmts, mfiles))
+        if c.src is not None:
+            lines = ["CASE %s" % c.name]
+            for pth, content in mfiles.items():
+                lines.append("FILE %s %s" % (pth.encode().hex(), content.hex() or "-"))
+            lines += ["SRC %s" % (c.src.hex() or "-"), "END"]
+            case_text.append("\n".join(lines) + "\n")
+        else:
+            case_text.append(gen.ser_case(c.name, c.stmts, mfiles))
     model = common.run_model(tag, "".join(case_text), verbose=model_verbose)
     for c in cases:
         c.impl = impl[c.name]
